@@ -293,6 +293,11 @@ class Ctx:
         """a store into a concrete-heap object/list/dict that existed when the verified function was entered"""
         if (self.entry_addr is not None and addr < self.entry_addr) or addr in self.preexisting:
             self.written.append(("cell", addr, what, node))
+        # every store into a concrete container is also remembered for the loop cuts: a container created BEFORE a cut loop and mutated inside its body
+        # keeps, in this engine, the state it had before the loop on every iteration - that is only sound when the cut forgets it (see Interp.loop_frame_check)
+        if not hasattr(self, "all_cell_writes"):
+            self.all_cell_writes = []
+        self.all_cell_writes.append((addr, what, node))
 
     def mutating(self, ref=None):
         if self.no_branch and not (ref is not None and ref.get_id() in self.merge_fresh):
